@@ -303,48 +303,49 @@ static refn::Result first2Model(const Scene& sc, const Config& g, const TRef& t)
   first2Reduce(sc, g, t, d2, tg, s2);
   return refn::moving(d2, tg, t.itarget, s2);
 }
-// what the ball-search path is observed to do: candidates = the nmaxi samples closest to the target in the plain
-// Euclidean metric among ALL ranks, before any filter (then the plain procedure, whatever its sector frame)
-static bool ballModelMatches(const Scene& sc, const Config& g, const TRef& t, const std::vector<int>& lib)
+// Ball search (ANeigh::setBallSearch). Property C04 of this task states the library's contract for it: "ball-tree
+// neighbourhood search equals exhaustive search whenever the nmaxi Euclidean-nearest samples are all admissible".
+// The ball path is therefore modelled as documented:
+//   K = the min(nmaxi, n) samples of dbin closest to the target in the plain L2 metric on the coordinates (all ranks);
+//   (a) every member of K admissible (active, defined, within the anisotropic radius, passing every checker, not the
+//       cross-validation target / fold)  ->  ball result == the definition;
+//   (b) otherwise                       ->  ball result == the definition applied to the candidate set K
+//       (same filters, sectors, quotas, nmaxi cycling, nmini counted on K).
+struct BallRef
 {
-  if (g.s.nmaxi > sc.n) return lib.empty();
+  bool tie = false;          // the k-th and (k+1)-th Euclidean distances tie: K is not defined, target skipped
+  bool precondition = false; // every member of K is admissible
+  std::vector<char> inK;
+};
+static BallRef ballRef(const Scene& sc, const Config& g, const TRef& t)
+{
+  BallRef b;
+  int n = sc.n, k = std::min(g.s.nmaxi, n);
   std::vector<std::pair<LD, int>> v;
-  for (int i = 0; i < sc.n; i++) v.push_back({refn::euclid(sc.data[i].x, t.tg->x), i});
+  for (int i = 0; i < n; i++) v.push_back({refn::euclid(sc.data[i].x, t.tg->x), i});
   std::sort(v.begin(), v.end());
-  std::vector<char> in(sc.n, 0);
-  for (int k = 0; k < g.s.nmaxi; k++) in[v[k].second] = 1;
-  for (int variant = 0; variant < (first2Applies(sc, g) ? 2 : 1); variant++)
+  double scale = 1. + (double)v[n - 1].first;
+  if (k < n && (double)(v[k].first - v[k - 1].first) < 1e-9 * scale) b.tie = true;
+  b.inK.assign(n, 0);
+  std::set<int> adm;
+  for (auto& cd : t.res.cands) adm.insert(cd.idx);
+  b.precondition = true;
+  for (int j = 0; j < k; j++)
   {
-    std::vector<refn::Sample> d2 = sc.data;
-    refn::Sample tg              = *t.tg;
-    refn::Search s2              = g.s;
-    if (variant == 1) first2Reduce(sc, g, t, d2, tg, s2);
-    for (int i = 0; i < sc.n; i++) d2[i].active = in[i];
-    for (int fr = 0; fr < 3; fr++)
-      for (int sg = -1; sg <= 1; sg += 2)
-      {
-        s2.sectFrame = fr;
-        s2.sectSign  = sg;
-        if (refn::moving(d2, tg, t.itarget, s2).sel == lib) return true;
-      }
+    b.inK[v[j].second] = 1;
+    if (!adm.count(v[j].second)) b.precondition = false;
   }
-  return false;
+  return b;
 }
 
-static std::string labelFailure(const std::string& orc, bool ball, const std::string& cls, const std::vector<int>& lib,
-                                const Scene& sc, const Config& g, const TRef& t)
+// Failure keys: a small fixed set, one per failing input class / call site (never the discrete configuration).
+static std::string labelFailure(const std::string& orc, const std::vector<int>& lib, const Scene& sc, const Config& g,
+                                const TRef& t)
 {
   std::string dg = diagnose(lib, t.res, sc, g, *t.tg, t.itarget);
-  if (g.checker == 4 && lib.empty()) return "C06:pair-checker:date:neighbourhood-always-empty";
-  if (!ball && first2Applies(sc, g) && lib == first2Model(sc, g, t).sel) return KEY_FIRST2;
-  if (ball)
-  {
-    if (g.s.nmaxi > sc.n && lib.empty()) return "C06:ball:nmaxi>nsamples:neighbourhood-empty";
-    if (dg == "inactive-sample-selected") return "C06:ball:inactive-sample-selected";
-    if (ballModelMatches(sc, g, t, lib)) return "C06:ball:candidates-limited-to-nmaxi-euclidean-nearest";
-    return "C06:ball:other:" + cls + ":" + dg;
-  }
-  return "C06:" + orc + ":" + cls + ":" + dg;
+  if (g.checker == 4 && lib.empty() && !t.res.sel.empty()) return "C06:pair-checker:date:neighbourhood-always-empty";
+  if (first2Applies(sc, g) && lib == first2Model(sc, g, t).sel) return KEY_FIRST2;
+  return "C06:" + orc + ":" + dg;
 }
 
 // expected summary statistics of a selected set (test_neigh remark: "1 - The number of selected samples, 2 - The
@@ -615,36 +616,75 @@ static void neighCase(Rng& r, Ctx& c)
     refs.push_back(t);
   }
 
-  // compare one returned set with the definition
-  auto compareSet = [&](const std::string& orc, bool ball, std::vector<int> lib, const TRef& t, int trank) -> bool
+  // the definition (on `data`) reproduces `lib`? For anisotropic / rotated searches with sectors the definition is
+  // accepted in any admissible sector frame (geographic increments, increments in the ellipsoid axes, the same divided
+  // by the coefficients; either sign)
+  auto matchesDefinition = [&](const std::vector<refn::Sample>& data, const TRef& t, const std::vector<int>& lib,
+                               const std::vector<int>& selFixedFrame) -> bool
+  {
+    if (frameFixed) return lib == selFixedFrame;
+    for (int fr = 0; fr < 3; fr++)
+      for (int sg = -1; sg <= 1; sg += 2)
+      {
+        refn::Search s2 = s;
+        s2.sectFrame    = fr;
+        s2.sectSign     = sg;
+        refn::Result r2 = refn::moving(data, *t.tg, t.itarget, s2);
+        if (r2.minAngGap < ANG_MARGIN) continue;
+        if (lib == r2.sel) return true;
+      }
+    return false;
+  };
+  // compare one returned set (plain search, or through the kriging machinery) with the definition
+  auto compareSet = [&](const std::string& orc, std::vector<int> lib, const TRef& t, int trank) -> bool
   {
     std::sort(lib.begin(), lib.end());
-    bool ok = false;
-    if (frameFixed)
-      ok = lib == t.res.sel;
-    else
-    {
-      // anisotropic / rotated search with sectors: accept the definition evaluated in any admissible frame
-      // (geographic increments, increments in the ellipsoid axes, the same divided by the coefficients; either sign)
-      for (int fr = 0; fr < 3 && !ok; fr++)
-        for (int sg = -1; sg <= 1 && !ok; sg += 2)
-        {
-          refn::Search s2 = s;
-          s2.sectFrame    = fr;
-          s2.sectSign     = sg;
-          refn::Result r2 = refn::moving(sc.data, *t.tg, t.itarget, s2);
-          if (r2.minAngGap < ANG_MARGIN) continue;
-          ok = (lib == r2.sel);
-        }
-    }
+    bool ok = matchesDefinition(sc.data, t, lib, t.res.sel);
     std::string key, det;
     if (!ok)
     {
-      key = labelFailure(orc, ball, cls, lib, sc, g, t);
+      key = labelFailure(orc, lib, sc, g, t);
       det = fmt("target %d lib=%s def=%s ncand=%d%s", trank, setStr(lib).c_str(), setStr(t.res.sel).c_str(),
                 (int)t.res.cands.size(), frameFixed ? "" : " (no admissible sector frame reproduces lib)");
     }
     c.truth(frameFixed ? orc : orc + "-anyframe", key, ok, det);
+    return ok;
+  };
+  // compare the set returned with ball search with its documented contract (see BallRef)
+  auto compareBall = [&](std::vector<int> lib, const TRef& t, int trank) -> bool
+  {
+    std::sort(lib.begin(), lib.end());
+    BallRef b = ballRef(sc, g, t);
+    if (b.tie) { c.skip("tie"); return false; }
+    std::set<int> adm;
+    for (auto& cd : t.res.cands) adm.insert(cd.idx);
+    bool inadmissible = false;
+    for (int i : lib)
+      if (!adm.count(i)) inadmissible = true;
+    bool ok;
+    std::string key, orc, det;
+    if (b.precondition)
+    {
+      c.probe("ball-precondition-holds");
+      orc = "set-ball";
+      ok  = matchesDefinition(sc.data, t, lib, t.res.sel);
+      key = "C06:ball:precondition-holds:differs-from-definition";
+      if (!ok) det = fmt("target %d nmaxi=%d: the nmaxi Euclidean-nearest samples are all admissible; lib=%s def=%s ncand=%d", trank,
+                         s.nmaxi, setStr(lib).c_str(), setStr(t.res.sel).c_str(), (int)t.res.cands.size());
+    }
+    else
+    {
+      orc = "set-ball-candidates";
+      std::vector<refn::Sample> d2 = sc.data;
+      for (int i = 0; i < sc.n; i++) d2[i].active = sc.data[i].active && b.inK[i];
+      refn::Result rk = refn::moving(d2, *t.tg, t.itarget, s);
+      ok  = matchesDefinition(d2, t, lib, rk.sel);
+      key = "C06:ball:differs-from-definition-on-candidate-set";
+      if (!ok) det = fmt("target %d nmaxi=%d lib=%s def-on-K=%s def=%s", trank, s.nmaxi, setStr(lib).c_str(),
+                         setStr(rk.sel).c_str(), setStr(t.res.sel).c_str());
+    }
+    if (!ok && inadmissible) key = "C06:ball:inadmissible-sample-selected";
+    c.truth(frameFixed ? orc : orc + "-anyframe", ok ? "" : key, ok, det);
     return ok;
   };
 
@@ -666,7 +706,7 @@ static void neighCase(Rng& r, Ctx& c)
       VectorInt ranks;
       nm->select(tranks[k], ranks);
       std::vector<int> lib = ranks.getVector();
-      bool ok = compareSet(std::string("set-") + bn, ball, lib, t, tranks[k]);
+      bool ok = ball ? compareBall(lib, t, tranks[k]) : compareSet("set-plain", lib, t, tranks[k]);
       if (r.coin(0.25))
       {
         // asking again for the same target must give the same set (ANeigh::select answers from its memo)
@@ -732,9 +772,9 @@ static void neighCase(Rng& r, Ctx& c)
           if (libEmpty != t.res.sel.empty())
           {
             std::vector<int> fake; // what is known of the library's set: empty or not
-            std::string key = libEmpty ? labelFailure("test_neigh", false, cls, fake, sc, g, t)
+            std::string key = libEmpty ? labelFailure("test_neigh", fake, sc, g, t)
                               : (first2Applies(sc, g) && !alt.sel.empty()) ? std::string(KEY_FIRST2)
-                                                                           : "C06:test_neigh:" + cls + ":not-empty-below-nmini";
+                                                                           : "C06:test_neigh:not-empty-below-nmini";
             c.truth("test_neigh-empty", key, false, det + fmt(" Number=%g", tab[0]));
             continue;
           }
@@ -756,10 +796,10 @@ static void neighCase(Rng& r, Ctx& c)
         c.truth("test_neigh-rc", "C06:test_neigh:columns", false,
                 fmt("expected 5 new columns, got %d", dbout->getColumnNumber() - ncol0));
     }
-    // 2b. krigtest().nbgh for one target (rank >= 1: rank 0 is CalcKriging's "no single target" value, see C01)
-    if ((int)tranks.size() > 1)
+    // 2b. krigtest().nbgh for one target (any rank, 0 included)
+    if (!tranks.empty())
     {
-      int k         = r.irange(1, (int)tranks.size() - 1);
+      int k         = r.irange(0, (int)tranks.size() - 1);
       const TRef& t = refs[k];
       if (!t.ambiguous)
       {
@@ -767,7 +807,7 @@ static void neighCase(Rng& r, Ctx& c)
         Krigtest_Res kr = krigtest(dbin.get(), dbout, model.get(), nm.get(), tranks[k], EKrigOpt::POINT, VectorInt(),
                                    false, false);
         OptDbg::reset();
-        compareSet("krigtest-nbgh", false, kr.nbgh.getVector(), t, tranks[k]);
+        compareSet("krigtest-nbgh", kr.nbgh.getVector(), t, tranks[k]);
       }
     }
   }
@@ -788,7 +828,7 @@ static void neighCase(Rng& r, Ctx& c)
         if (t.ambiguous) continue;
         if (!dbout->isActive(tranks[k])) continue; // estimate() skips masked targets
         if (ksys.estimate(tranks[k]) != 0) { c.skip("ksys-estimate-error"); continue; }
-        compareSet("ksys-indices", false, ksys.getSampleIndices().getVector(), t, tranks[k]);
+        compareSet("ksys-indices", ksys.getSampleIndices().getVector(), t, tranks[k]);
       }
       ksys.conclusion();
     }
